@@ -31,10 +31,12 @@ if spec.get('chdir'):
     os.chdir(spec['chdir'])
 results = []
 def assemble(item, out_dir, tag):
+    if spec.get('same_paths'):
+        tag = 'shared'   # every assembly of this process writes over the files of the one before it
     out = Path(out_dir) / f'{tag}.fjm'
     dbg = Path(out_dir) / f'{tag}.fjd'
     for p in (out, dbg):
-        if p.exists():
+        if p.exists() and not spec.get('same_paths'):
             p.unlink()
     kw = {}
     if item.get('max_recursion_depth'):
@@ -94,6 +96,9 @@ def layout_variants(rng: random.Random, scratch: Path, count: int) -> List[Dict[
         out.append({'files': [str(path)], 'w': w, 'stl': True, 'name': f'layout-variant-{k}'})
     # a source that only WARNS (its outcome depends on the warning mode, in every process alike), one whose macro body holds a
     # 300-term expression (needs the default recursion limit), and flat programs of more than 2^16 data words
+    segs = scratch / 'segments.fj'
+    segs.write_text(';\n' + ''.join(f'segment {(k + 1) * 4096}\ns{k}: ;s{k}\nwflip s{k} + 64, 5\n' for k in range(7)))
+    out.append({'files': [str(segs)], 'w': 64, 'stl': False, 'name': 'seven-segments'})
     warn = scratch / 'warns.fj'
     warn.write_text('def wm a, b {\n  ;a\n}\n;\nwm 1, 2\n')
     out.append({'files': [str(warn)], 'w': rng.choice([16, 32, 64]), 'stl': False, 'name': 'warning-bearing'})
@@ -245,6 +250,11 @@ def run_shard(spec: Dict[str, Any], journal: Any) -> Dict[str, Any]:
             probe_src = by_name['warning-bearing']
             history.append(dict(probe, werror=rng.random() < 0.5))
             judge.count('targeted/warning-source-again-as-errors')
+        elif r < 0.38 and 'seven-segments' in by_name:
+            # a program with many segments (many assembler-declared labels), assembled under another string-hash seed
+            probe = dict(by_name['seven-segments'], werror=True, version=rng.choice([1, 3]))
+            probe_src = by_name['seven-segments']
+            judge.count('targeted/many-segments-under-another-hash-seed')
         journal.note({'probe': probe, 'history': history})
         fresh = judge.fresh(probe)
         if fresh is None:
@@ -265,7 +275,11 @@ def run_shard(spec: Dict[str, Any], journal: Any) -> Dict[str, Any]:
                                                          f'{[h.get("name") for h in history]} it gives {"a file" if got["ok"] else got.get("error")}',
                                                  'replay': {'probe': probe, 'history': history}})
             continue
-        res = judge.child({'history': history, 'probe': probe}, hashseed=rng.choice(['0', '1', '12345']))
+        same_paths = rng.random() < 0.3
+        if same_paths:
+            judge.count('histories_writing_over_the_same_output_paths')
+        res = judge.child({'history': history, 'probe': probe, 'same_paths': same_paths},
+                          hashseed=rng.choice(['1', '12345', '99']) if probe_src['name'] == 'seven-segments' else rng.choice(['0', '1', '12345']))
         judge.count('monitor_evaluations')
         judge.count('histories')
         if res is None:
